@@ -179,6 +179,15 @@ def _shard(items):
             routes = table_routes(o)
         else:
             routes = index_routes(o)
+        # whole numbers of referenced cells once as int, once as float (a file gives either)
+        more = []
+        for rt in routes:
+            if rt[2] and any(isinstance(x, int) and not isinstance(x, bool)
+                             for rows in rt[2].values() for row in rows for x in row):
+                fl = {k_: [[float(x) if isinstance(x, int) and not isinstance(x, bool) else x for x in row]
+                           for row in rows] for k_, rows in rt[2].items()}
+                more.append((rt[0] + '/float',) + (rt[1], fl) + tuple(rt[3:]))
+        routes = list(routes) + more
         for rt in routes:
             name, formula, inputs, want = rt[:4]
             ref = 'Z50'
